@@ -1,7 +1,11 @@
 use crate::Args;
 
 pub mod c01;
+pub mod c02;
+pub mod c03;
 pub mod c06;
+pub mod c07;
+pub mod crash;
 
 pub fn dispatch(a: &Args) -> i32 {
     if let Some(p) = &a.replay {
@@ -9,13 +13,17 @@ pub fn dispatch(a: &Args) -> i32 {
     }
     match a.prop.as_str() {
         "C01" => c01::run(a),
+        "C02" => c02::run(a),
+        "C03" => c03::run(a),
         "C06" => c06::run(a),
+        "C07" => c07::run(a),
         "scenarios" => {
             // debug: run every directed scenario and print the outcome
             let mut code = 0;
             for p in ["C01","C02","C03","C04","C05","C06","C07","C08","C09","C10","C11","C12","C13","C14","C15","C16","C17","C18","C19"] {
                 let mut run = crate::evidence::Run::new(p, a.tier, a.seed, "exploration");
                 let _ = crate::scenarios::run_for(&mut run, p);
+                crate::props::crash::run_scenarios(&mut run, p);
                 if !run.violations.is_empty() { code = 1; }
             }
             code
